@@ -179,11 +179,29 @@ def check_regdump(chk):
     for i in fn.real_insts():
         if i.op in ("lshr", "ashr") and not i.ops[1].is_const_int():
             found = True
-            s = i.ops[1]
-            src = s.inst
-            while src is not None and src.op in ("zext", "sext", "trunc"):
-                src = src.ops[0].inst
-            good = src is not None and src.op == "call" and src.callee == "ctz"
+            # the shift count is ctz(mask): a call of ctz, or what the header makes of it (a count-trailing-zeros builtin with the
+            # zero case selected separately), possibly widened
+            leaves, work, seen = [], [i.ops[1]], set()
+            while work:
+                v = work.pop()
+                if v.is_const_int():
+                    continue
+                d = v.inst
+                if d is None or id(d) in seen:
+                    if d is None:
+                        leaves.append(None)
+                    continue
+                seen.add(id(d))
+                if d.op in ("zext", "sext", "trunc", "freeze"):
+                    work.append(d.ops[0])
+                elif d.op == "phi":
+                    work += [x for x, b in d.incoming]
+                elif d.op == "select":
+                    work += [d.ops[1], d.ops[2]]
+                else:
+                    leaves.append(d)
+            good = bool(leaves) and all(d is not None and d.op == "call" and (d.callee == "ctz" or (d.callee or "").startswith("llvm.cttz."))
+                                        for d in leaves)
             if good:
                 # the mask whose ctz is taken is the mask applied to the register value
                 val = i.ops[0].inst
@@ -194,6 +212,50 @@ def check_regdump(chk):
     else:
         chk.ob("B4.regdump-shift", "fregdump_single", ok,
                "the field is extracted as (reg & mask) >> ctz(mask)", fn.loc, fn.name)
+
+
+API_WITNESS = '''
+#include <stdint.h>
+#include <librfn/bitops.h>
+int w_once_bitcnt(uint32_t (*next)(void)) { return bitcnt(next()); }
+int w_once_clz(uint32_t (*next)(void)) { return clz(next()); }
+int w_once_ctz(uint32_t (*next)(void)) { return ctz(next()); }
+int w_once_ilog2(uint32_t (*next)(void)) { return ilog2(next()); }
+/* the helpers take a uint32_t: a wider argument is converted first, whatever the header makes of the name */
+int w_wide_bitcnt(uint64_t x) { return bitcnt(x); }
+int w_wide_clz(uint64_t x) { return clz(x); }
+int w_wide_ctz(uint64_t x) { return ctz(x); }
+'''
+
+
+def check_api_hygiene(chk):
+    """B6: bitcnt / clz / ctz / ilog2 as a caller writes them (function, header inline or macro): the argument expression is
+    evaluated exactly once, and an argument wider than 32 bits is converted to uint32_t before anything is decided from it."""
+    from .. import paths
+    chk.rule("B6", "bitcnt / clz / ctz / ilog2 as written by a caller: argument evaluated once; a wider argument is converted to uint32_t first")
+    names = ["w_once_bitcnt", "w_once_clz", "w_once_ctz", "w_once_ilog2", "w_wide_bitcnt", "w_wide_clz", "w_wide_ctz"]
+    try:
+        w = build.api_view("c16_hyg.c", API_WITNESS, ["librfn/bitops.c"], names)
+    except AnalysisError as e:
+        chk.unknown("B6.single-evaluation", "bitops witness", "witness does not build: %s" % str(e)[-200:])
+        return
+    chk.note_unit(w)
+    for nm in names[:4]:
+        fn = w.fn(nm)
+        try:
+            ps = [p for p in paths.enumerate_paths(fn, w, loop_bound=2, max_paths=5000) if not paths.is_assert_fail_path(p)]
+        except AnalysisError as e:
+            chk.unknown("B6.single-evaluation", nm[7:], str(e)[:150])
+            continue
+        worst = max((len([e for e in p.events if e.kind == "call" and not isinstance(e.callee, str)]) for p in ps), default=0)
+        least = min((len([e for e in p.events if e.kind == "call" and not isinstance(e.callee, str)]) for p in ps), default=0)
+        chk.ob("B6.single-evaluation", "%s(next())" % nm[7:], worst == 1 and least == 1,
+               "the argument expression is evaluated exactly once on every path" if worst == 1 and least == 1 else
+               "the argument expression is evaluated %d time(s) on some path: with an argument that has a side effect (a FIFO pop, a "
+               "register read) the value examined is not the value counted" % (worst if worst != 1 else least), fn.loc, nm)
+    decide(chk, "B6.argument-conversion", "bitcnt(uint64_t)", w, "w_wide_bitcnt", 64, lambda bv, x, n: spec_popcount(bv, x[:32], n), what="bitcnt of a 64-bit argument")
+    decide(chk, "B6.argument-conversion", "clz(uint64_t)", w, "w_wide_clz", 64, lambda bv, x, n: spec_clz(bv, x[:32], n), what="clz of a 64-bit argument")
+    decide(chk, "B6.argument-conversion", "ctz(uint64_t)", w, "w_wide_ctz", 64, lambda bv, x, n: spec_ctz(bv, x[:32], n), what="ctz of a 64-bit argument")
 
 
 def run(chk):
@@ -242,3 +304,4 @@ def run(chk):
         chk.unknown("B2.const_pop", "macro witness", "witness does not compile: %s" % str(e)[-300:])
     static_assert_witness(chk, chk.seed, chk.tier)
     check_regdump(chk)
+    check_api_hygiene(chk)
